@@ -367,7 +367,7 @@ def view(case):
 
 def campaigns(tier: str) -> List[Campaign]:
     return [Campaign("filters", filter_case(), check, quick=4000, thorough=240000, quick_shards=8, fuzz_runs=80000,
-                     required_classes={"proper_subset": 0.15, "row_local_composite": 0.1, "name_on_decoded": 0.03,
+                     required_classes={"proper_subset": 0.15, "row_local_composite": 0.1, "name_on_decoded": 0.025,
                                        "name": 0.02, "gpu": 0.02, "memcpy": 0.02, "iter_index": 0.02, "time": 0.02,
                                        "filter_object_reused_with_other_table": 0.2},
                      sample_view=view)]
